@@ -39,6 +39,25 @@ int main(int argc, char **argv) {
     if (!(a.value() < b.value() && b.value() < c.value())) replay_io::fail("ID3 ids " + std::to_string(a.value()) + ", " + std::to_string(b.value()) + " before stop()+start(), then " + std::to_string(c.value()) + ": an identifier is reused within one transport");
     replay_io::ok("ID3 ids strictly increase across stop() + start()"); return 0;
   }
+  if (in.count("GAUGE") && U("GAUGE")) {      // G1: connect to a live loopback listener through the REAL doConnect; the gauge as seen from the connect callback and afterwards
+    TransportConfig c3; c3.enableHighResolutionTimers = false; TcpEngine e3(c3);
+    int lfd = ::socket(AF_INET, SOCK_STREAM, 0); sockaddr_in a{}; a.sin_family = AF_INET; a.sin_port = 0; inet_pton(AF_INET, "127.0.0.1", &a.sin_addr); socklen_t al = sizeof a;
+    if (::bind(lfd, (sockaddr *)&a, sizeof a) != 0 || ::listen(lfd, 8) != 0 || ::getsockname(lfd, (sockaddr *)&a, &al) != 0) { printf("REPLAY-SKIP: no loopback listener\n"); return 0; }
+    long gaugeAtAnnounce = -1; int announced = 0, closedN = 0;
+    e3._cbs.onConnect = [&](SessionId, const TransportAddress &) { announced++; gaugeAtAnnounce = (long)e3._atomicStats.sessionsCurrent.load(); };
+    e3._cbs.onClose = [&](SessionId, const TransportErrorInfo &) { closedN++; };
+    auto r = e3.connect("127.0.0.1", ntohs(a.sin_port), TlsMode::None);
+    e3.process();
+    std::string m;
+    if (announced && gaugeAtAnnounce < 1) m += "G1 the session was announced (onConnect) while sessionsCurrent == " + std::to_string(gaugeAtAnnounce) + " (the gauge under-counts)";
+    size_t inTable = e3._sessions.size(), gauge = e3._atomicStats.sessionsCurrent.load();
+    if (gauge != inTable) m += (m.empty() ? "" : " || ") + std::string("G1 sessionsCurrent == ") + std::to_string(gauge) + " with " + std::to_string(inTable) + " session(s) in the table";
+    for (auto it = e3._sessions.begin(); it != e3._sessions.end(); it = e3._sessions.begin()) e3.closeNow(it->second.get(), TransportError::Unknown, "replay teardown", 0);
+    if (e3._atomicStats.sessionsCurrent.load() != 0) m += (m.empty() ? "" : " || ") + std::string("G1 the gauge is ") + std::to_string(e3._atomicStats.sessionsCurrent.load()) + " after every session has closed";
+    syscall(SYS_close, lfd); (void)r;
+    if (!m.empty()) replay_io::fail(m);
+    replay_io::ok(std::string("G1 gauge consistent (announced=") + std::to_string(announced) + ")"); return 0;
+  }
   size_t NS = U("NS"), NL = U("NL"), NCONN = U("NCONN"), HASCB = U("HASCB"), SSLMASK = U("SSLMASK");
   if (NS > 3) NS = 3; if (NL > 1) NL = 1; if (NCONN > 2) NCONN = 2;
   TransportConfig cfg; cfg.enableHighResolutionTimers = false;
